@@ -319,6 +319,8 @@ def break_formula(case):
     for t in toks:  # keep words apart even in tight mode
         if out and (out[-1][-1].isalnum() or out[-1][-1] in "._") and (t[0].isalnum() or t[0] in "._"):
             out.append(" ")
+        elif out and out[-1] in rf.PREC and t in rf.PREC:
+            out.append(" ")  # two operator tokens must not fuse into another operator (`* *` -> `**`)
         elif out and sep:
             out.append(sep)
         out.append(t)
